@@ -9,7 +9,7 @@ from ..core import (AnalysisError, body_nodes, call_name, dotted, is_self_attr, 
 from ..dtable import UNKNOWN, run_paths
 from ..dtable import _val as dval
 from ..normal import inline_temps
-from ..pattern import find, guards_of, pmatch
+from ..pattern import P, find, guards_of, pmatch
 from ..flow import check_errflow
 
 MPO = 'tenpy/networks/mpo.py'
@@ -383,6 +383,11 @@ def run(prog, rep, tier):
         raise AnalysisError('RANGE-loop-carried / ID-normalised: anchors in mpo.py not found')
     if check_sanitised_range(prog, rep) < 2:
         raise AnalysisError('RANGE-sanitised: the sanitised ranges of MPO.overlap were not found')
+    rep.rule('WEIGHT-path', 'plus_identity: exponents of beta**(1/N) along every path through '
+             'the blocks of W add up to N (polynomial identities); identity chains carry beta '
+             'once')
+    check_plus_identity(prog, rep)
+    rep.floor('WEIGHT-path', 8)
     rep.floor('RANGE-derived', 4)
     rep.floor('HCFLAG-mpo', 20)
     rep.floor('HCFLAG-derived', 5)
@@ -392,3 +397,238 @@ def run(prog, rep, tier):
         explanation='Flag exhaustiveness over %d W-using MPO methods, flag forwarding of derived '
         'MPOs, identity-index/leg pairing at %d slicing sites and error flow of the apply '
         'methods.' % (n1, n2))
+
+
+# ------------------------------------------------------------------ plus_identity: path weights
+def _partition_roles(m):
+    """roles of the values returned by _partition_W, read from its projections:
+    position in the returned tuple -> 'A' (middle,middle) 'B' (middle,end) 'C' (start,middle)
+    'D' (start,end)"""
+    f = m.functions.get('_partition_W')
+    if f is None:
+        raise AnalysisError('_partition_W not found in mpo.py')
+    pn = [a.arg for a in f.args.args]
+    startL, endR = pn[1], pn[4]
+    role = {}
+    for c in ast.walk(f):
+        if isinstance(c, ast.Call) and isinstance(c.func, ast.Attribute) and \
+                c.func.attr == 'iproject' and isinstance(c.func.value, ast.Name) and c.args and \
+                isinstance(c.args[0], ast.List) and len(c.args[0].elts) == 2:
+            r, cc = [unparse(e) for e in c.args[0].elts]
+            role[c.func.value.id] = {(True, False): 'C', (False, True): 'B', (False, False): 'A',
+                                     (True, True): 'D'}[(r == startL, cc == endR)]
+    ret = [r for r in ast.walk(f) if isinstance(r, ast.Return) and isinstance(r.value, ast.Tuple)]
+    if len(ret) != 1 or len(role) != 4:
+        raise AnalysisError('_partition_W: cannot read the block roles')
+    return [role.get(unparse(e)) for e in ret[0].value.elts]
+
+
+def _factors(e):
+    if isinstance(e, ast.BinOp) and isinstance(e.op, ast.Mult):
+        return _factors(e.left) + _factors(e.right)
+    return [e]
+
+
+def _terms(e):
+    if isinstance(e, ast.BinOp) and isinstance(e.op, ast.Add):
+        return _terms(e.left) + _terms(e.right)
+    return [e]
+
+
+def check_plus_identity(prog, rep):
+    """WEIGHT-path: alpha*1 + beta*H spreads beta as t_beta = beta**(1/N) over the N chosen sites.
+    Every term of H runs through one start block (C), middle blocks (A) and one end block (B), or
+    is on-site (D); the exponents of t_beta collected along every such path must add up to N, for
+    every position of the term relative to the chosen sites (exact polynomial identities in the
+    positions m < n), and the two identity chains carry the remaining beta exactly once."""
+    from ..linform import NotPoly, Poly, eval_poly
+    m = prog.module(MPO)
+    f = m.functions.get('MPO.plus_identity')
+    if f is None:
+        raise AnalysisError('MPO.plus_identity not found')
+    rep.unit(m)
+    roles = _partition_roles(m)
+    blocks = {}
+    ident = None
+    grid = None
+    for st in stmts_of(f):
+        if isinstance(st, ast.Assign) and isinstance(st.value, ast.Call):
+            if call_name(st.value) == '_partition_W' and isinstance(st.targets[0], ast.Tuple):
+                for t, r in zip(st.targets[0].elts, roles):
+                    blocks[t.id] = r
+            elif call_name(st.value) in ('eye_like', 'npc.eye_like') and \
+                    isinstance(st.targets[0], ast.Name):
+                ident = st.targets[0].id
+            elif call_name(st.value) in ('np.empty', 'empty') and isinstance(st.targets[0],
+                                                                             ast.Name):
+                grid = st.targets[0].id
+    # the branch `if k in sites:` names the per-site factors
+    br = [s for s in ast.walk(f) if isinstance(s, ast.If) and isinstance(s.test, ast.Compare) and
+          isinstance(s.test.ops[0], ast.In) and unparse(s.test.comparators[0]) == 'sites']
+    if len(blocks) != 4 or ident is None or grid is None or len(br) != 1:
+        raise AnalysisError('MPO.plus_identity: blocks / identity / grid / site branch not found')
+    br = br[0]
+    inside, outside = {}, {}
+    incr = None
+    for blk, dst in ((br.body, inside), (br.orelse, outside)):
+        for st in blk:
+            if isinstance(st, ast.Assign):
+                for t in st.targets:
+                    if isinstance(t, ast.Name):
+                        dst[t.id] = st.value
+                        if t.id == 'counter':
+                            incr = st
+            elif isinstance(st, ast.AugAssign) and isinstance(st.target, ast.Name) and \
+                    st.target.id == 'counter':
+                incr = st
+    defs = {}
+    for st in stmts_of(f):
+        if isinstance(st, ast.Assign) and len(st.targets) == 1 and isinstance(st.targets[0],
+                                                                                 ast.Name):
+            defs.setdefault(st.targets[0].id, []).append(st.value)
+    root = [n for n, v in defs.items() if len(v) == 1 and pmatch(P('beta ** (1 / N)'), v[0])]
+    share = [n for n, v in defs.items() if len(v) == 1 and pmatch(P('alpha / N'), v[0])]
+    base = [n for n, v in inside.items() if isinstance(v, ast.Name) and v.id in root]
+    onsite = [n for n, v in inside.items() if isinstance(v, ast.Name) and v.id in share]
+    rep.instance('WEIGHT-path', {'function': 'MPO.plus_identity', 'what': 'factors',
+                                 'root': root, 'share': share, 'base': base, 'onsite': onsite})
+    if len(root) != 1 or len(share) != 1 or len(base) != 1 or len(onsite) != 1 or incr is None:
+        rep.violation('WEIGHT-path', m, 'MPO.plus_identity', 'factors',
+                      'on the chosen sites the per-site factor must be beta**(1/N) and the '
+                      'per-site share of the identity alpha/N (found %s / %s)' % (base, onsite),
+                      br.lineno)
+        return 1
+    b, a = base[0], onsite[0]
+    for n in (b, a):
+        v = outside.get(n)
+        want = 1 if n == b else 0
+        if v is None or not isinstance(v, ast.Constant) or v.value != want:
+            # chained assignment b = g = d = 1.0 is an Assign with several targets: handled above
+            rep.violation('WEIGHT-path', m, 'MPO.plus_identity', 'outside:' + n,
+                          'on sites outside `sites` the factor `%s` must be %d' % (n, want),
+                          br.lineno)
+    # ---- exponents of b in the stores of the grid
+    expo = {}
+    chain = {}
+    for st in stmts_of(f):
+        if not (isinstance(st, ast.Assign) and isinstance(st.targets[0], ast.Subscript) and
+                isinstance(st.targets[0].value, ast.Name) and st.targets[0].value.id == grid):
+            continue
+        post = (incr.lineno < st.lineno)
+        for term in _terms(st.value):
+            fs = _factors(term)
+            blk = [x for x in fs for n in ast.walk(x) if isinstance(n, ast.Name) and
+                   (n.id in blocks or n.id == ident)]
+            if len(blk) != 1:
+                raise AnalysisError('MPO.plus_identity: cannot read `%s`' % key_text(st))
+            name = [n.id for n in ast.walk(blk[0]) if isinstance(n, ast.Name) and
+                    (n.id in blocks or n.id == ident)][0]
+            e = Poly.const(0)
+            others = []
+            for x in fs:
+                if x is blk[0]:
+                    continue
+                if isinstance(x, ast.Name) and x.id == b:
+                    e = e + Poly.const(1)
+                elif isinstance(x, ast.BinOp) and isinstance(x.op, ast.Pow) and isinstance(
+                        x.left, ast.Name) and x.left.id == b:
+                    try:
+                        e = e + eval_poly(x.right, {})
+                    except NotPoly:
+                        raise AnalysisError('MPO.plus_identity: exponent `%s`' % unparse(x.right))
+                else:
+                    others.append(unparse(x))
+            if name == ident:
+                idx = unparse(st.targets[0].slice)
+                chain[idx] = (others, e, st)
+            else:
+                expo.setdefault(blocks[name], []).append((e, others, st, post))
+    for r in 'ABCD':
+        if len(expo.get(r, [])) != 1:
+            raise AnalysisError('MPO.plus_identity: expected one store of block %s' % r)
+    N = Poly.sym('N')
+    mm, nn = Poly.sym('m'), Poly.sym('n')
+
+    def at(r, pos):
+        e, _, _, post = expo[r][0]
+        c = pos if post else pos - Poly.const(1)
+        out = Poly.const(0)
+        for mono, co in e.t.items():
+            t = Poly({(): co})
+            for s in mono:
+                t = t * (c if s == 'counter' else Poly.sym(s))
+            out = out + t
+        return out
+    one = Poly.const(1)
+    eA = at('A', mm)
+    cases = [
+        ('on-site term on a chosen site', at('D', mm)),
+        ('term from chosen site m to chosen site n', at('C', mm) + (nn - mm - one) * eA +
+         at('B', nn)),
+        ('term starting before and ending on chosen site n', (nn - one) * eA + at('B', nn)),
+        ('term starting on chosen site m and ending after the chosen sites',
+         at('C', mm) + (N - mm) * eA),
+        ('term passing over all chosen sites', N * eA),
+    ]
+    for what, total in cases:
+        rep.instance('WEIGHT-path', {'function': 'MPO.plus_identity', 'what': what,
+                                     'exponent': repr(total)})
+        if not (total - N).is_zero():
+            rep.violation('WEIGHT-path', m, 'MPO.plus_identity', 'exponent:' + what,
+                          '%s: the factors beta**(1/N) collected along the path give the '
+                          'exponent %r instead of N (C: %r, A: %r per site, B: %r, D: %r): the '
+                          'result is not alpha*1 + beta*H' %
+                          (what, total, expo['C'][0][0], expo['A'][0][0], expo['B'][0][0],
+                           expo['D'][0][0]), expo['A'][0][2].lineno)
+    for r in 'ABC':
+        if expo[r][0][1]:
+            rep.violation('WEIGHT-path', m, 'MPO.plus_identity', 'extra-factor:' + r,
+                          'block %s carries the additional factor %s' % (r, expo[r][0][1]),
+                          expo[r][0][2].lineno)
+    # ---- on-site share of alpha: the D entry adds `a * 1` exactly once
+    dst = expo['D'][0][2]
+    shares = [t for t in _terms(dst.value) if any(isinstance(n, ast.Name) and n.id == ident
+                                                   for n in ast.walk(t))]
+    ok = len(shares) == 1 and sorted(unparse(x) for x in _factors(shares[0])) == sorted([a, ident])
+    rep.instance('WEIGHT-path', {'function': 'MPO.plus_identity', 'what': 'identity share',
+                                 'ok': ok})
+    if not ok:
+        rep.violation('WEIGHT-path', m, 'MPO.plus_identity', 'identity-share',
+                      'the on-site entry must add `%s * %s` (alpha/N on each of the N chosen '
+                      'sites) exactly once' % (a, ident), dst.lineno)
+    # ---- identity chains: beta once, at the first chosen site on the chain of finished terms
+    # (lower right), at the last chosen site on the chain of not yet started terms (upper left)
+    def when_beta(name):
+        v = inside.get(name)
+        if not isinstance(v, ast.IfExp) or not isinstance(v.test, ast.Compare) or \
+                unparse(v.test.left) != 'counter':
+            return None
+        op = v.test.ops[0]
+        k = unparse(v.test.comparators[0])
+        yes, no = (v.body, v.orelse) if isinstance(op, ast.Eq) else (v.orelse, v.body)
+        if not isinstance(op, (ast.Eq, ast.NotEq)):
+            return None
+        if unparse(yes) == 'beta' and isinstance(no, ast.Constant) and no.value == 1:
+            st = [s for s in br.body if isinstance(s, ast.Assign) and s.value is v][0]
+            try:
+                kp = eval_poly(ast.parse(k, mode='eval').body, {})
+            except NotPoly:
+                return None
+            return kp + one if st.lineno > incr.lineno else kp
+        return None
+    want = {'(0, 0)': ('upper left (terms not yet started)', N - one, 'last'),
+            '(-1, -1)': ('lower right (terms already finished)', Poly.const(0), 'first')}
+    for idx, (what, k, which) in want.items():
+        if idx not in chain:
+            raise AnalysisError('MPO.plus_identity: identity entry %s not found' % idx)
+        others, e, st = chain[idx]
+        got = when_beta(others[0]) if len(others) == 1 else None
+        rep.instance('WEIGHT-path', {'function': 'MPO.plus_identity', 'what': 'chain ' + idx,
+                                     'factor': others, 'beta_when_counter': repr(got)})
+        if got is None or not (got - k).is_zero() or not e.is_zero():
+            rep.violation('WEIGHT-path', m, 'MPO.plus_identity', 'chain:' + idx,
+                          'the identity entry %s must carry beta exactly on the %s chosen site '
+                          '(counter == %r before the increment) and 1 elsewhere: found factor '
+                          '%s, beta when counter == %r' % (what, which, k, others, got),
+                          st.lineno)
+    return 1
